@@ -335,7 +335,7 @@ int main(int argc, char **argv) {
     s_reset(); s_cmd(cb, n); s_out(0, (const unsigned char *)"did 1+0+0\n\0more", 15); s_exit(0, ws < 256 ? ws << 8 : ws - 256);
     one(s_str(), 0, 0);
   }
-  /* (5) end of input with deliveries in flight: after a first command (delivery 0) every sequence of up to <level>+1 events
+  /* (5) end of input with deliveries in flight: after a first command (delivery 0) every sequence of up to <level> events
    *     over { second command (delivery 1), EOF on descriptor 0, and for each of the two slots: child reaped while in select
    *     (k), EOF on its pipe (z), both in one wake-up (x); output of child 0 } - every order of end of input, death of a
    *     child, and the read that produces its report, relative to the exit test at the top of the main loop */
@@ -344,7 +344,7 @@ int main(int argc, char **argv) {
     unsigned char c2[64];
     size_t n1 = mkcmd(cb, 0, "0/77", 4, "s@h", "r@h");
     size_t n2 = mkcmd(c2, 1, "1/78", 4, "", "q@h");
-    for (int len = 0; len <= level + 1; len++) {
+    for (int len = 0; len <= level; len++) {
       uint64_t total = 1; for (int i = 0; i < len; i++) total *= 9;
       for (uint64_t k = 0; k < total; k++, id++) {
         if ((int)(id % nshards) != shard) continue;
